@@ -681,6 +681,63 @@ def unit_rk4(model, timedep):
   return (f"rk4/{model}/{'time-dependent' if timedep else 'time-invariant'}", run)
 
 
+def unit_ma_postcondition(ctx):
+  """euler() / implicit() take efc.Ma as the right-hand side M*qacc (rhs-is-efc.Ma above): solve() must establish it on the
+  constraint-free early-out (njmax == 0) too.  The iterative path (njmax > 0) maintains Ma incrementally (C06)."""
+  import mujoco
+
+  import mujoco_warp as mjw
+  from mujoco_warp._src import solver
+
+  xml = HXML["mix"].format(integ="Euler", flags="")
+  mjm = mujoco.MjModel.from_xml_string(xml)
+  mjd = mujoco.MjData(mjm)
+  mujoco.mj_forward(mjm, mjd)
+  m, d = mjw.put_model(mjm), mjw.put_data(mjm, mjd, njmax=0)
+  sym = {"qacc_smooth", "qacc", "M", "efc.Ma", "qacc_warmstart"}
+  d2 = host.shim_dataclass(d, "d.", symbolic=lambda n: n[2:] in sym)
+  arrs = host.arrays_of(d2)
+  with host.HostRun(mode="exec") as hr:
+    solver.solve(m, d2)
+  ctx.encode(solver.solve)
+  for e in hr.events:
+    if e.kind == "launch":
+      ctx.encode(e.kernel)
+  ctx.bound(nworld=1, nv=int(mjm.nv), njmax=0, model="ball + hinge + slide chain")
+  ctx.assume("njmax == 0 (no constraint rows can exist); M symbolic in mujoco_warp's CSR layout of this model")
+  nv = int(mjm.nv)
+  rownnz, rowadr, colind = [[int(x) for x in a.numpy()] for a in (m.M_rownnz, m.M_rowadr, m.M_colind)]
+  Mv, qs = cells(arrs, "M"), cells(arrs, "qacc_smooth")
+  full = [[0.0] * nv for _ in range(nv)]
+  for i in range(nv):
+    for k in range(rownnz[i]):
+      j = colind[rowadr[i] + k]
+      full[i][j] = full[j][i] = Mv[rowadr[i] + k]
+  want = [sum((full[i][j] * qs[j] for j in range(nv)), 0.0) for i in range(nv)]
+  sess = ctx.session([core.zbool(a) for a in hr.assumes])
+  ctx.reach(sess, "twin:solve-njmax0", True)
+
+  def rp(zmodel):
+    res = {}
+    for integ in ("Euler", "implicitfast", "implicit"):
+      mjm2 = mujoco.MjModel.from_xml_string(HXML["mix"].format(integ=integ, flags=""))
+      m2 = mjw.put_model(mjm2)
+      mjd2 = mujoco.MjData(mjm2)
+      mjd2.qvel[:] = np.random.default_rng(3).normal(size=mjm2.nv)
+      d0 = mjw.put_data(mjm2, mjd2, njmax=0)
+      for _ in range(3):
+        mujoco.mj_step(mjm2, mjd2)
+        mjw.step(m2, d0)
+      res[integ] = {"mujoco qvel": mjd2.qvel.tolist(), "mujoco_warp qvel (njmax=0)": d0.qvel.numpy()[0].tolist()}
+    bad = any(not np.allclose(v["mujoco qvel"], v["mujoco_warp qvel (njmax=0)"], rtol=3e-4, atol=3e-5) for v in res.values())
+    return bad, _save("solve.njmax0.Ma", {"xml": HXML["mix"], "result": res, "how": "put_data(njmax=0), random qvel (default_rng(3)), 3 x mjw.step vs mujoco.mj_step"})
+
+  got_q, got_Ma = cells(arrs, "qacc", post=True), cells(arrs, "efc.Ma", post=True)
+  for i in range(nv):
+    A.prove_eq(ctx, sess, f"qacc[{i}]==qacc_smooth", got_q[i], qs[i], names={}, replay=rp, desc="solve() without constraint rows: qacc differs from qacc_smooth")
+    A.prove_eq(ctx, sess, f"efc.Ma[{i}]==(M*qacc)", got_Ma[i], want[i], names={}, replay=rp, desc="solve() with njmax == 0 leaves efc.Ma (right-hand side of the Euler / implicit damping solve) stale instead of M*qacc")
+
+
 def main(tier, seed, only=None):
   import mujoco_warp  # noqa: imported once here so that the forked unit processes inherit the loaded modules
   from mujoco_warp._src import forward, smooth, support, util_misc  # noqa
@@ -691,6 +748,7 @@ def main(tier, seed, only=None):
   units += pid_units
   units += [unit_advance(False), unit_advance(True)]
   units += [unit_euler(f) for f in ("default", "eulerdamp-off", "damper-off")]
+  units.append(("solve-postcondition/njmax0", unit_ma_postcondition))
   units += [unit_implicit(i) for i in ("implicitfast", "implicit")]
   units += [unit_rk4("mix", False), unit_rk4("fexact", False), unit_rk4("mix", True)]
   if only:
